@@ -485,6 +485,19 @@ func (m *e1Machine) Enabled() []pt.Action {
 				}
 			}
 		}
+		if strings.Contains(m.w.P.Alpha, "inv") && maySkip {
+			// single calls that must be refused, some by the argument checks, some only while the operation executes
+			// (after it has taken its identifier): a refused call leaves no trace
+			r := m.w.reps[i]
+			switch {
+			case r.mp != nil:
+				as = append(as, pt.Action{Op: "rem", R: i, K: "zz", Fail: true}, pt.Action{Op: "put", R: i, K: "", V: "p", Fail: true})
+			case r.li != nil:
+				as = append(as, pt.Action{Op: "del1", R: i, P: r.li.Size(), Fail: true}, pt.Action{Op: "ins1", R: i, P: r.li.Size() + 1, V: "p", Fail: true})
+			case r.doc != nil:
+				as = append(as, pt.Action{Op: "ddel", R: i, K: "zz", Fail: true}, pt.Action{Op: "dins", R: i, T: "", P: 0, N: 1, V: "p", Fail: true})
+			}
+		}
 		as = append(as, pt.Action{Op: "sync", R: i})
 		if m.oracles["restore"] && maySkip && len(m.w.Pending(i)) == 0 {
 			as = append(as, pt.Action{Op: "restore", R: i})
@@ -549,6 +562,28 @@ func (m *e1Machine) Apply(a pt.Action) *pt.Violation {
 	if a.Op == "badunit" {
 		m.hist = append(m.hist, twinStep{a: a, skip: true})
 		return m.applyBadUnit(a)
+	}
+	if a.Fail && a.Op != "tx" {
+		// a single call that is expected to be refused
+		before := m.fullState()
+		tag0 := m.w.reps[a.R].nloc
+		out := m.w.Step(a)
+		m.last = fmt.Sprintf("%s|%s", out.Err, out.Ret)
+		st := twinStep{a: a, tags: m.w.reps[a.R].nloc - tag0}
+		if out.Panic != "" {
+			m.hist = append(m.hist, st)
+			return viol("C03:panic:"+a.Op, "%s panicked: %s", a, out.Panic)
+		}
+		if out.Err != "" {
+			st.skip = true
+			m.hist = append(m.hist, st)
+			if after := m.fullState(); after != before {
+				return viol("C15:refused-call-left-a-trace:"+m.w.P.Type+":"+a.Op+":"+diffField(after, before), "%s was refused (%s) but the world changed; first difference at %s", a, out.Err, firstDiff(after, before))
+			}
+			return m.checkTwin(a)
+		}
+		m.hist = append(m.hist, st) // accepted (as a no-op or otherwise): an ordinary step
+		return nil
 	}
 	tag0 := m.w.reps[a.R].nloc
 	var keyBefore string
